@@ -255,3 +255,13 @@ Require Copia.Proofs.TieOneWayRun.
 Theorem C04_local_run_is_translation_of_source : TieOneWayRun.oneway_run_is_translation.
 Proof. exact TieOneWayRun.oneway_run_is_translation_holds. Qed.
 Print Assumptions C04_local_run_is_translation_of_source.
+
+(** The push / pull recursive run as a PROGRAM is the translation of incremental.rs `run_remote` as the source has it now:
+    which scan is the source (push: the local one, pull: the remote one), the plan from build_plan, the dry-run exit
+    before anything is touched, the directories on the receiving side, one spawned transfer per path of plan.transfer
+    with the source's scanned mtime (transfer_file_to_remote / deliver_pull), the join, and only then
+    apply_remote_deletes on plan.delete (Gen/RemoteRunGen.v, Proofs/TieRemoteRun.v). *)
+Require Copia.Proofs.TieRemoteRun.
+Theorem C04_remote_run_is_translation_of_source : TieRemoteRun.remote_run_is_translation.
+Proof. exact TieRemoteRun.remote_run_is_translation_holds. Qed.
+Print Assumptions C04_remote_run_is_translation_of_source.
